@@ -425,6 +425,11 @@ def check(P, R, tier):
     import mixdiff
     nm = mixdiff.run_parallel(R, P, "RF2-mixdiff")
     R.floor("RF2-mixdiff", "differences of date-times held in different representations", nm, 50000)
+    # the statement is about the duration ddiff *prints*: which duration type a format selects and how the components are laid out
+    # (src/ddiff.c) are part of it, so the printing pipeline is decoded under this check as well (as under C06)
+    import diffout
+    nout = diffout.run_parallel(R, P, "RF2-out", jobs=8)
+    R.floor("RF2-out", "decoded (pair of inputs, format) points of what ddiff prints", nout, 6000)
 
 
 LEVEL = ("Decides, for the year/day, year/month/day and year/week/day differences, the inverse law itself by decoding the routines over their whole domain (RF2-diff), and structural necessary conditions of `difference inverts addition`: operands are ordered first and the sign is "
